@@ -552,14 +552,11 @@ fn js_value_to_json_with_visited(
                         }
                         ExoticObject::Number(n) => {
                             // Number wrapper objects serialize as their primitive value
-                            if n.is_finite() {
-                                serde_json::Value::Number(
-                                    serde_json::Number::from_f64(*n)
-                                        .unwrap_or(serde_json::Number::from(0)),
-                                )
-                            } else {
-                                serde_json::Value::Null
-                            }
+                            js_value_to_json_with_visited(
+                                &JsValue::Number(*n),
+                                visited,
+                                stack_base,
+                            )?
                         }
                         ExoticObject::StringObj(s) => {
                             // String wrapper objects serialize as their primitive value
